@@ -123,6 +123,42 @@ theorem exec_head {d d' : Dev} {r : Req} {bs : Bytes} (h : exec d r = (d', some 
     rw [encodeReply_head he, execMultiple_svc hr]
     rfl
 
+theorem execReq_head {refusing : List (Nat × Nat × Nat)} {d d' : Dev} {r : Req} {bs : Bytes}
+    (h : execReq refusing d r = (d', some bs)) : bs.head? = some (reqService r ||| 128) := by
+  unfold execReq at h
+  split at h
+  · split at h
+    · split at h
+      · rename_i d1 bs1 hx
+        split at h
+        · simp only [Prod.mk.injEq] at h
+          rw [encodeReply_head h.2, ← service_or]
+          rfl
+        · simp only [Prod.mk.injEq, Option.some.injEq] at h
+          rw [← h.2]
+          exact exec_head hx
+      · rename_i x hx
+        exact exec_head h
+    · exact exec_head h
+  · exact exec_head h
+
+/-- a refusing Attribute is never changed, and the reply to a write that reaches it is still produced -/
+theorem execReq_cases (refusing : List (Nat × Nat × Nat)) (d : Dev) (r : Req) :
+    execReq refusing d r = exec d r ∨
+      (execReq refusing d r).1 = d ∧ ∃ bs, (execReq refusing d r).2 = some bs := by
+  unfold execReq
+  split
+  · split
+    · split
+      · split
+        · right
+          exact ⟨rfl, by simp [encodeReply, errReply]⟩
+        · rename_i hx _
+          left; exact hx.symm
+      · left; rfl
+    · left; rfl
+  · left; rfl
+
 /-- the Connection Manager always answers its own services, with the request's service code with bit 7 set -/
 theorem execCm_head (s : Srv) (r : CmReq) (raw : Bytes) :
     (execCm s r).2.head? = some (Cip.service (.cm r raw) ||| 128) := by
